@@ -56,6 +56,7 @@ pub fn deliveries(h: &History) -> Vec<Delivery> {
                 begin,
                 announced,
                 items,
+                tail,
                 ..
             } => {
                 for (j, it) in items.iter().enumerate() {
@@ -76,7 +77,7 @@ pub fn deliveries(h: &History) -> Vec<Delivery> {
                         op: i,
                         thread: o.thread,
                         claimed: Some(begin.wrapping_add(items.len() + j)),
-                        item: None,
+                        item: tail.iter().find(|(off, _)| *off == items.len() + j).map(|(_, it)| *it),
                         call: o.call,
                         ret: o.ret,
                     });
@@ -283,6 +284,7 @@ pub fn c03_chunk_contract(h: &History) -> Verdict {
             len_ok,
             end_ok,
             fully_consumed,
+            tail,
         } = &o.res
         {
             let w = |s: String| format!("op #{} {:?} on thread {}: {}", i, o.tag, o.thread, s);
@@ -294,6 +296,22 @@ pub fn c03_chunk_contract(h: &History) -> Verdict {
             }
             if !*len_ok {
                 return bad("len-trajectory", w("len() did not decrease by one per item".into()));
+            }
+            if !*fully_consumed && !*end_ok {
+                return bad(
+                    "rest-of-chunk",
+                    w("nth / last / skip / step_by / count on the rest of the chunk did not behave like the default Iterator methods (an item too many or too few)".into()),
+                );
+            }
+            if distinct {
+                for (off, it) in tail.iter() {
+                    if info.val_at(begin.wrapping_add(*off)) != Some(it.val) {
+                        return bad(
+                            "not-consecutive",
+                            w(format!("the item obtained at offset {} of the chunk starting at {} is not the source element at position {}", off, begin, begin.wrapping_add(*off))),
+                        );
+                    }
+                }
             }
             if *fully_consumed && (!*end_ok || items.len() != *announced) {
                 return bad(
@@ -1147,7 +1165,9 @@ pub fn c18_panic_containment(h: &History) -> Verdict {
             .ops
             .iter()
             .any(|o| o.thread == t && matches!(o.res, Res::Panicked(_)));
-        if !*done && !panicked {
+        // a thread that ends with an UnwindPull operation leaves by its own (user) panic
+        let unwinds = h.case.threads.get(t).map_or(false, |ops| ops.iter().any(|o| matches!(o, Op::UnwindPull { .. })));
+        if !*done && !panicked && !unwinds {
             return bad("thread-stuck", format!("thread {} did not complete its operations", t));
         }
     }
